@@ -259,7 +259,10 @@ def load_known(prop: str) -> list[dict]:
     if not p.exists():
         return []
     data = json.loads(p.read_text())
-    return [e for e in data.get("findings", []) if e.get("property") == prop]
+    found = [e for e in data.get("findings", []) if e.get("property") == prop]
+    for q in sorted((VERIF / "findings").glob("*.json")):   # per-branch entries awaiting integration into known_findings.json
+        found += [e for e in [json.loads(q.read_text())] if e.get("property") == prop and e.get("id") not in {x.get("id") for x in found}]
+    return found
 
 
 def write_replay(prop: str, obj: dict) -> str:
